@@ -164,17 +164,16 @@ Proof.
     destruct (walk_trav (us_next n) n last Hl ltac:(intros; reflexivity) (S n) i ps Hf W) as [A B].
     rewrite (it_eq_pos n) by (simpl; auto). simpl pos_of.
     destruct (Nat.eqb_spec i (pos_of n last)) as [E|E].
-    + exists i, 0. rewrite erase_nothing. subst ps. rewrite <- E, Nat.sub_diag. repeat split; auto.
-      * intros _. destruct last; simpl in *; [lia|subst; auto].
-      * discriminate.
+    + exists i, 0. rewrite erase_nothing. subst ps. rewrite <- E, Nat.sub_diag. repeat split; auto; try discriminate.
+      intros _. destruct last; simpl in *; [lia|subst; auto].
     + simpl it_eq at 1. simpl negb. rewrite andb_true_l.
       assert (Hnx : it_wf n (us_next n (At i true))) by (simpl; destruct (Nat.ltb_spec (S i) n); simpl; auto).
       rewrite (it_eq_pos n (us_next n (At i true))) by auto.
       assert (Pn : pos_of n (us_next n (At i true)) = S i) by (simpl; destruct (Nat.ltb_spec (S i) n); simpl; lia).
       rewrite Pn. destruct (Nat.eqb_spec (S i) (pos_of n last)) as [E1|E1].
-      * simpl. exists i, 1. subst ps. rewrite <- E1. replace (S i - i) with 1 by lia.
+      * unfold us_erase_one. exists i, 1. subst ps. rewrite <- E1. replace (S i - i) with 1 by lia.
         replace (i + 1) with (S i) by lia. repeat split; auto; try discriminate.
-        intros _. destruct last as [|j tj]; simpl in *.
+        intros _. destruct last as [|j tj]; unfold deref, pos_of in *.
         -- apply nth_error_None. fold n. lia.
         -- subst j; auto.
       * rewrite (it_eq_pos n) by (simpl; auto; unfold us_begin; destruct (Nat.eqb_spec n 0); simpl; auto; lia).
@@ -182,8 +181,8 @@ Proof.
         rewrite Pb. simpl pos_of.
         destruct (Nat.eqb_spec i 0) as [E2|E2]; simpl.
         -- destruct last as [|j tj]; simpl.
-           ++ exists 0, n. subst. simpl in *. rewrite Nat.sub_0_r. unfold n. rewrite erase_all. repeat split; auto.
-              discriminate.
+           ++ exists 0, n. subst i ps. unfold pos_of. rewrite Nat.sub_0_r. change (erase_range 0 (0 + n) l) with (erase_range 0 (0 + length l) l). rewrite erase_all.
+              repeat split; auto.
            ++ subst ps. rewrite seq_length. simpl in *. lia.
         -- subst ps. rewrite seq_length. destruct last; simpl in *; lia.
   - (* lookup-derived *)
